@@ -306,7 +306,8 @@ def rules(ctx):
         miss = [n for ch, n in need.items() if ch not in s.channels]
         ctx.decide(o, not miss, "all five collections are written", "update_tours never writes: %s" % ", ".join(miss))
     tour_vanishes_rule(ctx)
-    from .C11 import hitch_hiking_refuses_conflicts
+    from .C11 import hitch_hiking_refuses_conflicts, swap_stages_chain
+    swap_stages_chain(ctx, "R4")       # what one step of a swap displaced is handed to the next step, not dropped with a stale schedule
     hitch_hiking_refuses_conflicts(ctx, "R4")     # displaced activities are handed back or the move is refused, also at the swap level
     from . import formulas as _fm0
     before = len(ctx.obligations)
